@@ -56,6 +56,8 @@ class Ctx:
         self.sigs = set()
         self.switch_sites = set()
         self.lines_seen = set()
+        self.instr_sites = set()
+        self.instr_seen = set()
         self.steps = 0
         self.uncaught = {}
         self.i = -1
@@ -762,8 +764,13 @@ class CallsDriver:
             ctx.fault("crash_line_threaded")
         ctx.steps += sc.steps
         ctx.sigs.add(sc.signature())
-        ctx.switch_sites |= sc.switch_sites
-        ctx.lines_seen |= sc.lines_seen
+        if op["gran"] == "opcode":
+            ctx.instr_sites |= sc.switch_sites
+            ctx.instr_seen |= sc.lines_seen
+            ctx.count("threaded_phases_instruction_level")
+        else:
+            ctx.switch_sites |= sc.switch_sites
+            ctx.lines_seen |= sc.lines_seen
         ctx.log("CONCURRENT", sc.decisions, sc.signature())
         self.check_model(pre, "CONCURRENT")
         # per-call reference executions, after the join
